@@ -1589,7 +1589,6 @@ void TasmanianSparseGrid::readBinary(std::istream &ifs){
     if (TSG[3] != '5'){
         throw std::runtime_error("ERROR: wrong binary file format, version number is not '5'");
     }
-    clear();
     std::unique_ptr<BaseCanonicalGrid> new_base = [&](char grid_type)->std::unique_ptr<BaseCanonicalGrid>{
         switch (grid_type){
             case 'g': return readGridVersion5<GridGlobal>(acceleration.get(), ifs, IO::mode_binary_type());
@@ -1642,6 +1641,7 @@ void TasmanianSparseGrid::readBinary(std::istream &ifs){
         }
     }
 
+    clear(); // not earlier: a failed read must leave the grid as it was
     base = std::move(new_base);
     domain_transform_a = std::move(new_domain_transform_a);
     domain_transform_b = std::move(new_domain_transform_b);
